@@ -92,7 +92,10 @@ def check_key(res, tr, label, material: RKey, jkey, params, viol, rng, thorough)
     """persist in every form, crash, reload, compare"""
     kind = _kind(material)
     password = rng.pick(["pw", "päss wörd", "x" * 40])
-    for form in S.FORMS:
+    # the order of the exports is part of the history (what a key exports first must not shape what it exports later)
+    forms = list(S.FORMS)
+    rng.shuffle(forms)
+    for form in forms:
         try:
             blob = S.persist(jkey, form, password)
         except Exception as e:
